@@ -22,6 +22,28 @@ Proof. exact ctor_spec_underflow. Qed.
 Theorem C09_ctor_overflow : forall lo hi x, ctor_spec lo hi x = Err Overflow <-> lo <= x /\ hi < x.
 Proof. exact ctor_spec_overflow. Qed.
 
+(** [const fn] constructors cannot return an error: they yield the value iff it is in range and
+    panic (their documented failure signal) otherwise — never an out-of-range amount. *)
+Theorem C09_zb_const_from_i64 : forall x, zb_const_from_i64 x = const_spec (- MAX_MONEY) MAX_MONEY x.
+Proof. exact zb_const_from_i64_spec. Qed.
+Theorem C09_zb_const_from_u64 : forall x, 0 <= x -> zb_const_from_u64 x = const_spec 0 MAX_MONEY x.
+Proof. exact zb_const_from_u64_spec. Qed.
+Theorem C09_zat_const_from_u64 : forall x, 0 <= x -> zat_const_from_u64 x = const_spec 0 MAX_MONEY x.
+Proof. exact zat_const_from_u64_spec. Qed.
+Theorem C09_const_ok : forall lo hi x v, const_spec lo hi x = Ok v <-> v = x /\ lo <= x <= hi.
+Proof. exact const_spec_ok. Qed.
+Theorem C09_const_panic : forall lo hi x, const_spec lo hi x = Panic <-> ~ (lo <= x <= hi).
+Proof. exact const_spec_panic. Qed.
+(** Sign predicates agree with the sign of the exact integer. *)
+Theorem C09_zb_is_positive : forall a, zb_is_positive a = true <-> 0 < a.
+Proof. exact zb_is_positive_spec. Qed.
+Theorem C09_zb_is_negative : forall a, zb_is_negative a = true <-> a < 0.
+Proof. exact zb_is_negative_spec. Qed.
+Theorem C09_zat_is_zero : forall z, zat_is_zero z = true <-> z = 0.
+Proof. exact zat_is_zero_spec. Qed.
+Theorem C09_zat_is_positive : forall z, valid_zat z -> zat_is_positive z = negb (zat_is_zero z).
+Proof. exact zat_is_positive_spec. Qed.
+
 (** Signed-balance operators: no panic, exact result or failure. *)
 Theorem C09_zb_add : forall a b, valid_zb a -> valid_zb b -> zb_add a b = Ok (exact_zb (a + b)).
 Proof. exact zb_add_exact. Qed.
